@@ -38,8 +38,8 @@ def instantiations(tier, seed):
             else:
                 mode[l] = rng.choice(["absent", "present"])
         forms = {l: FORMS[(n + k + seed) % 3] for n, l in enumerate(lv)}
-        out.append({"model": m, "mode": mode, "forms": forms, "part": "partial"})
-        out.append({"model": m, "mode": mode, "forms": forms, "part": "flags"})
+        out.append({"model": m, "mode": mode, "forms": forms, "part": "partial", "warm": k % 3 == 1})
+        out.append({"model": m, "mode": mode, "forms": forms, "part": "flags", "warm": k % 3 == 1})
     base = F.symbolize(F.AL(2, F.a(), F.i(), F.AL(1, F.b(), F.c(), id="B", sign=1), id="A", sign=1))
     for mu in ("strict_lower", "taut_strict", "eqb_swapped"):
         out.append({"kind": "mutant", "mutant": mu, "model": base, "part": "partial" if mu == "strict_lower" else "flags", "mode": {"a": "sym", "i": "sym", "b": "sym", "c": "absent"},
@@ -60,6 +60,8 @@ def run_inst(spec, run):
         env = plh.sym_env(ctx, model_spec)
         m0 = pl.build(ns, model_spec, env)
         nodes = plh.walk(ns, m0)
+        if spec.get("warm"):
+            plh.warm(ns, m0)
         # ---- flags and equation bounds on the freshly built nodes (children free in their bounds)
         flags = []
         for nid, objs in (nodes.items() if spec["part"] == "flags" else []):
@@ -99,6 +101,8 @@ def run_inst(spec, run):
         ref = {nid: pl.obj_sem(ns, objs[0], {k: v.e for k, v in comp.items()}) for nid, objs in nodes.items()}
         err = r = None
         try:
+            if spec.get("warm"):
+                plh.warm(ns, m1)
             r = m1.evaluate_propositions(interp)
         except Exception as e:   # noqa
             err = "%s: %s" % (type(e).__name__, e)
